@@ -83,7 +83,7 @@ func ZeroWriter(t *parser.Type, oprot string, err string) string {
 	case parser.Category_Set:
 		return checkErrorTPL(oprot+".WriteSetBegin(thrift."+GetTypeIDConstant(t.GetValueType())+
 			",0)", err) + checkErrorTPL(oprot+".WriteSetEnd()", err)
-	case parser.Category_Struct:
+	case parser.Category_Struct, parser.Category_Union, parser.Category_Exception:
 		return checkErrorTPL(oprot+".WriteStructBegin(\"\")", err) + checkErrorTPL(oprot+".WriteFieldStop()", err) +
 			checkErrorTPL(oprot+".WriteStructEnd()", err)
 	default:
